@@ -178,7 +178,9 @@ def build_harness(flavour):
     bdir = build_library(flavour)
     hdir = os.path.join(bdir, "harness")
     os.makedirs(hdir, exist_ok=True)
-    lib_manifest = _sha(os.path.join(bdir, ".verif_srchash.json"))
+    # harness objects depend on the repository's *headers* (and the flavour), not on its .cpp files
+    inc = tree_hashes(repo_dir(), ["include"])
+    lib_manifest = hashlib.sha1(json.dumps([inc, spec], sort_keys=True).encode()).hexdigest()
     hh = harness_headers_hash()
     flags = spec["flags"].split() + ["-D" + GUARD, "-std=gnu++17", "-Wno-deprecated-declarations",
              "-I" + os.path.join(repo_dir(), "include"), "-I" + os.path.join(repo_dir(), "include", "pomerol"),
@@ -222,13 +224,16 @@ def build_harness(flavour):
     if failed:
         raise RuntimeError("harness compile failed (%s):\n%s" % (flavour, "\n".join(f + "\n" + o[-3000:] for f, o in failed)))
     vh = os.path.join(hdir, "vh")
-    if jobs or not os.path.exists(vh):
+    lib_stamp = _sha(os.path.join(bdir, ".verif_srchash.json"))
+    if jobs or not os.path.exists(vh) or stamps.get("__lib__") != lib_stamp:
         link = [spec["cxx"]] + [f for f in spec["flags"].split() if f.startswith(("-fsanitize", "-fopenmp", "-g", "-O"))] + \
                objs + ["-o", vh, "-L" + bdir, "-lpomerol", "-Wl,-rpath," + bdir,
                        "-lboost_mpi", "-lboost_serialization"] + MPI_LINK
         rc, out, dt = run(link, logfile=logfile)
         if rc != 0:
             raise RuntimeError("harness link failed (%s):\n%s" % (flavour, out[-3000:]))
+        stamps["__lib__"] = lib_stamp
+        json.dump(stamps, open(stamp_path, "w"))
     return vh
 
 
